@@ -29,4 +29,19 @@ def Holder.loadFinite (f : ScoreFile) : Holder :=
   let cells := (f.plateIds.zip f.scores).filter (fun e => e.2.isFinite)
   { size := cells.length, scores := cells.map Prod.snd, plateIds := cells.map Prod.fst, cur := cells.length }
 
+/-- REGRESSION (S8-C06): a "reproducible tie-break" that returns the LOWEST plate id among the allowed cells whose score is within a
+    tolerance of the best score (`np.isclose`), instead of the exact minimiser -/
+def Holder.lowestIdWithinTol (h : Holder) (allowed : List Int) (tol : Rat) : Option Int :=
+  let E := h.entries.filter (fun e => allowed.contains e.1)
+  match (h.plateIdWithMinimumScore (some allowed)).toOption with
+  | none => none
+  | some p =>
+    match E.find? (fun e => e.1 == p) with
+    | some (_, .fin best) =>
+      let close := E.filter (fun e => match e.2 with
+        | .fin x => decide (x ≤ best + tol)
+        | .negInf => true)
+      some ((close.map Prod.fst).foldl min p)
+    | _ => some p
+
 end Batchie.Scores
